@@ -1,6 +1,7 @@
 /-
 Model of `black_it/search_space.py`: `SearchSpace._check_bounds` (lines 96-140) and the grid construction
-in `SearchSpace.__init__` (`np.arange(lower, upper + min(0.0000001, 0.5 * precision), precision)`).
+in `SearchSpace.__init__` (`np.arange(lower, upper + tolerance, precision)` with
+`tolerance = min(max(1e-7, 2·spacing(max(|lower|, |upper|))), 0.5·precision)`).
 Core Lean only; polymorphic in the number type.
 -/
 namespace BlackIt.SearchSpace
@@ -24,6 +25,9 @@ structure Ops (α : Type) where
   zero : α
   /-- the constant `0.5` -/
   half : α
+  /-- `2 * np.spacing(max(abs(lower), abs(upper)))`: twice the gap between adjacent numbers at the magnitude of the
+  bounds; `0` in exact arithmetic -/
+  spacing2 : α → α → α
 
 variable {α : Type}
 
@@ -65,15 +69,17 @@ def arange [Add α] [Sub α] [Mul α] [Div α] (ops : Ops α) (start stop step :
 def grid [Add α] [Sub α] [Mul α] [Div α] (ops : Ops α) (tol lo hi p : α) : List α :=
   arange ops lo (hi + tol) p
 
-/-- the end-point tolerance of the code, `min(tolMax, 0.5 * precision)` with `tolMax = 1e-7` (Python's `min`:
-the second argument only when it is strictly smaller): it absorbs the rounding of `upper - lower`, and is never
-larger than half a step -/
-def codeTol [LT α] [DecidableLT α] [Mul α] (ops : Ops α) (tolMax p : α) : α :=
-  if ops.half * p < tolMax then ops.half * p else tolMax
+/-- the end-point tolerance of the code, `min(max(tolMax, 2·spacing), 0.5 * precision)` with `tolMax = 1e-7` (Python's
+`max`/`min`: the second argument only when it is strictly larger/smaller): it absorbs the rounding of `upper - lower`
+— also for bounds so large that `1e-7` is below the resolution of the numbers — and is never more than half a step -/
+def codeTol [LT α] [DecidableLT α] [Mul α] (ops : Ops α) (tolMax lo hi p : α) : α :=
+  let s := ops.spacing2 lo hi
+  let t := if tolMax < s then s else tolMax
+  if ops.half * p < t then ops.half * p else t
 
 /-- `param_grid` of a search space -/
 def grids [LT α] [DecidableLT α] [Add α] [Sub α] [Mul α] [Div α] (ops : Ops α) (tolMax : α) (lower upper prec : List α) : List (List α) :=
-  (lower.zip (upper.zip prec)).map (fun (lo, hi, p) => grid ops (codeTol ops tolMax p) lo hi p)
+  (lower.zip (upper.zip prec)).map (fun (lo, hi, p) => grid ops (codeTol ops tolMax lo hi p) lo hi p)
 
 /-- `space_size`: running product of the grid lengths -/
 def spaceSize (gs : List (List α)) : Nat := gs.foldl (fun acc g => acc * g.length) 1
